@@ -128,6 +128,12 @@ func (h Hooks) AfterEpochEnd(ctx sdk.Context, epochIdentifier string, epochNumbe
 		strategicAmt := strategic.Amount
 		cpAmt := communityPool.Amount
 
+		// Nothing was minted (epoch provision below one base unit): there are
+		// no amounts to report.
+		if stakingAmt.IsNil() || strategicAmt.IsNil() || cpAmt.IsNil() {
+			return
+		}
+
 		if mintedCoin.Amount.IsInt64() {
 			telemetry.IncrCounterWithLabels(
 				[]string{types.ModuleName, "allocate", "total"},
